@@ -1,6 +1,7 @@
 import IpcHub.Drv.Util
 import IpcHub.Model.TsInst
 import IpcHub.Spec.TsOracle
+import IpcHub.Spec.TsSource
 import IpcHub.Spec.HlsOracle
 namespace IpcHub.Drv.C09
 open IpcHub.Ts IpcHub.Drv
@@ -56,13 +57,7 @@ def cmpBytes (model impl : List UInt8) : String :=
   | none => "ok"
   | some i => s!"diff:{i}:{model.length}:{impl.length}"
 
-def ticksNat (ns : Int) : Nat := (Int.tdiv (ns * 90000) 1000000000).toNat
-
-def srcOf (f : AvFrame) : List IpcHub.TsSpec.Src :=
-  match f.media with
-  | .video => [.video f.payload (ticksNat f.dtsNs) (ticksNat f.ptsNs)]
-  | .audio => [.audio f.payload (ticksNat f.ptsNs)]
-  | .other => []
+def srcOf := IpcHub.TsSpec.srcOf
 
 /-- ops:
   `av sps=<hex> pps=<hex> asc=<ot,si,esr,esi,cc|none> impl=<hex> <frame>…`
@@ -99,10 +94,7 @@ def handle : List String → String
             let p : IpcHub.TsSpec.Params :=
               match truth, asc with
               | some (x, y, z), _ => { sps, pps, aot := x, srIndex := y, chanCfg := z }
-              | none, some a =>
-                { sps, pps, aot := a.objectType,
-                  srIndex := (if a.extSampleRate > 0 then a.extSamplingIndex else a.samplingIndex),
-                  chanCfg := a.channelConfig }
+              | none, some a => IpcHub.TsSpec.paramsOf sps pps a
               | none, none => { sps, pps, aot := 0, srIndex := 0, chanCfg := 0 }
             IpcHub.TsSpec.verdict (IpcHub.TsSpec.holds p (judged.flatMap srcOf) impl)
         s!"model={cmpBytes model impl} panic={boolStr panicked} spec={spec}"
@@ -123,9 +115,7 @@ def handle : List String → String
       let p : IpcHub.TsSpec.Params :=
         match truth, asc with
         | some (x, y, z), _ => { sps, pps, aot := x, srIndex := y, chanCfg := z }
-        | none, some a => { sps, pps, aot := a.objectType,
-                            srIndex := (if a.extSampleRate > 0 then a.extSamplingIndex else a.samplingIndex),
-                            chanCfg := a.channelConfig }
+        | none, some a => IpcHub.TsSpec.paramsOf sps pps a
         | none, none => { sps, pps, aot := 0, srIndex := 0, chanCfg := 0 }
       let spec : Except String Unit := do
         let pes ← segs.mapM IpcHub.HlsSpec.demuxSegment
